@@ -243,10 +243,16 @@ claim("C04", "Lean 4 theorems (Mathlib change of variables) about definitions re
       "also with parameters computed from the condition, BlockAutoregressiveNetwork with the default LeakyTanh (any max_val > 0) or any activation with act' > 0 onto R (bijectivity of the forward map on R^n, the code's own log-space log-det), "
       "Flip and Permute (every permutation the constructor accepts); hence any depth and any mixture of these layers over a normalised base integrates to one at every condition (also as ONE Transformed over the Chain, merge_transforms) and its "
       "sampler has law exp(log_prob); concrete instances (a conditional tanh MAF, planar, BNAF and a mixed MAF-Flip-BNAF flow over StandardNormal((2,))) are proved normalised; "
-      "the generated StandardNormal log-density is normalised (scalar and (n,)); Tanh is not onto R and its pull-back only collects the base mass in (-1,1).",
+      "the generated StandardNormal log-density is normalised (scalar and (n,)); Tanh is not onto R and its pull-back only collects the base mass in (-1,1). "
+      "THE LIBRARY'S DEFAULT (relu) CONDITIONERS: for Coupling and MaskedAutoregressive layers no differentiability in the conditioning coordinates is needed — Tonelli, one coordinate at a time "
+      "(Proofs/MassShear.lean, MassAR.lean, NetMassMeas.lean; theorem autoregressive_layer): every coupling layer over ANY conditioner function and every masked autoregressive layer over ANY well-shaped masked network, with ANY "
+      "scalar transformer family that is lawful on R, log-det antisymmetric and satisfies the one-dimensional layer fact, preserves mass for every integrand and has sampler law exp(log_prob), in both orientations, at every condition, "
+      "given only joint measurability of (point, coordinate) -> transformer(parameter row of the point)(coordinate); that hypothesis is discharged for the generated Affine transformer in the constructor's parameterisation over every "
+      "perceptron / masked network with a CONTINUOUS activation, relu included (coupling_relu_layer, maf_continuous_layer: a network with a continuous activation is continuous, any depth and shapes); every well-formed rational-quadratic "
+      "spline satisfies the three scalar hypotheses (spline_family_facts); any depth and mixture with the other layers is normalised with sampler law exp(log_prob) (flowNd_layerOK_stack_normalised/_sample_law; relu_flow_instance).",
       _TB + " PARTIAL: PRNG statistics (that the base sampler draws from the base density) and rounding are outside; BNAF's sampling direction uses the numerical inverter and Planar(tanh) implements no inverse, so for those 'samples follow "
-      "the density' is proved for the exact inverse (C10 bounds the inverter's error); conditioners with the default relu activation are differentiable only off a null set (finitely many hyperplane preimages) and are outside the theorems "
-      "(the quadrature oracle covers them); spline transformers inside Coupling/MAF are covered in one dimension only; excluded parameter point w = 0 of Planar (the code returns NaN there). The correspondence is C03's plus the network "
+      "the density' is proved for the exact inverse (C10 bounds the inverter's error); for the rational-quadratic-spline transformer inside Coupling/MAF in d > 1 the joint measurability of (parameter row, point) -> spline value is left as a hypothesis "
+      "(NetMass.CouplingMeas / MafMeas; every other hypothesis is proved); excluded parameter point w = 0 of Planar (the code returns NaN there). The correspondence is C03's plus the network "
       "models' (netinv, bnafld), Planar's and the permutation layers', all re-run by C04's check.", "DESIGN.md §5 C04")
 
 claim("C06", "Lean 4 theorems about a hand-written executable model of the batching layer, proved equal to the public wrappers REGENERATED from the source on every run "
